@@ -12,6 +12,8 @@ if [ -f tools/crashshim.c ]; then gcc -O1 -shared -fPIC -o build/crashshim.so to
 # syntax-check every spec module
 for f in spec/*.tla; do
   [ -f "$f" ] || continue
+  # the *Proof modules extend TLAPS (the proof system's library, not on SANY's path): tlapm checks them in the checks
+  case "$f" in *Proof.tla) continue;; esac
   (cd spec && tla-sany "$(basename "$f")" >/dev/null 2>&1) || { echo "SANY failed: $f"; (cd spec && tla-sany "$(basename "$f")" | tail -20); exit 1; }
 done
 rm -rf spec/states spec/*.old 2>/dev/null || true
